@@ -49,6 +49,15 @@ CLAIMED = {
     ),
 }
 
+CLAIMED["C20"] = (
+    "zonesim",
+    "deterministic simulation: seeded transaction histories on dns.btreezone.Zone with abort points and pinned readers; derived state recomputed from content by definition after every operation and commit",
+    "exploration",
+    "Seeded histories of transactions at, above and below delegation points (nested cuts in both orders, CNAME displacement, whole-node deletes, replacement transactions, rollbacks/exceptions, shuffled initial load, readers pinned across later commits) on relativized and absolute B-tree zones; after every operation (writable version) and every commit (newest and every pinned version) node flags, delegation index and iteration order are recomputed from content alone and compared, and bounds() is compared with a definitional oracle for every name in the zone, RFC 4471 neighbours and ~20 extra query names.",
+    "Trusted: the definitional oracle in checks/c20.py (derive/expected_bounds), reference zone model, dns.name ordering and is_subdomain.",
+    "DESIGN.md 3.10",
+)
+
 PENDING_REASON = "check under construction in this session (DESIGN.md section 8 build order); not claimed until its quick command is green on the unchanged tree"
 ALL = [f"C{i:02d}" for i in range(1, 21)]
 
